@@ -12,6 +12,8 @@ models.  Oracles:
       evaluated on the text geometry; where the documentation is ambiguous (several models end on the line above)
       every candidate is accepted
 """
+import copy
+
 from symx.env import NoTracing, check, Fail, NATIVE, pick, R, known_finding
 from symx import docenv
 from symx.docenv import text_of, walk
@@ -204,13 +206,13 @@ def postings_list_grab(f, i, owner, acceptable):
     return False
 
 
-def make_layout(first, n_lines, k_calls, alphabet='DTPMQCIJBGW', fixed_fn=None, twin=False):
+def make_layout(first, n_lines, k_calls, alphabet='DTPMQCIJBGW', fixed_fn=None, twin=False, call_kinds=(0, 6)):
     KINDS = list(alphabet)
     nk = len(KINDS)
 
     def cell(l1: int, l2: int, l3: int, l4: int, l5: int, fn: bool, m0: int, c0: int, m1: int, c1: int) -> None:
         assert 0 <= l1 < nk and 0 <= l2 < nk and 0 <= l3 < nk and 0 <= l4 < nk and 0 <= l5 < nk
-        assert 0 <= m0 <= 5 and 0 <= c0 <= 6 and 0 <= m1 <= 5 and 0 <= c1 <= 6
+        assert 0 <= m0 <= 5 and call_kinds[0] <= c0 <= call_kinds[1] and 0 <= m1 <= 5 and 0 <= c1 <= 6
         sel = [pick(x, 0, nk - 1) for x in (l1, l2, l3, l4, l5)[:n_lines - 1]]
         fn = bool(pick(fn, 0, 1)) if fixed_fn is None else fixed_fn
         calls = [(pick(a, 0, 5), pick(b, 0, 6)) for a, b in ((m0, c0), (m1, c1))[:k_calls]]
@@ -249,6 +251,8 @@ def make_layout(first, n_lines, k_calls, alphabet='DTPMQCIJBGW', fixed_fn=None, 
             g = docenv.PARSER.parse(text, M.File, auto_claim_comments=False)
             og = ownership_keyed(g, what + ' without attribution')
             check(all(o is None for o in og), what, 'parse without attribution claimed a comment', og)
+            # a deep copy is a document too: (1) holds in it and it attributes like its original
+            check(ownership_keyed(copy.deepcopy(g), what + ' (deep copy of the unattributed document)') == og, what, 'a deep copy of the unattributed document owns comments')
             g.auto_claim_comments()
             check(ownership_keyed(g, what + ' attributed later') == own, what, 'attribution by parse and attribution later differ', own, ownership_keyed(g, what))
             # (5) + arbitrary claim/unclaim sequences keep (1)
@@ -284,13 +288,14 @@ def make_layout(first, n_lines, k_calls, alphabet='DTPMQCIJBGW', fixed_fn=None, 
                         m.auto_claim_comments()
                 except ValueError:
                     pass    # refusals (already claimed / not found) are fine; (1) must still hold
-                ownership_keyed(f, what + ' after call %d on %s' % (ci, p))
+                now = ownership_keyed(f, what + ' after call %d on %s' % (ci, p))
+                check(ownership_keyed(copy.deepcopy(f), what + ' (deep copy after call %d on %s)' % (ci, p)) == now, what, 'a deep copy attributes differently from its original after call', ci, 'on', p)
                 check(text_of(f) == text, what, 'a claim call changed the text')
             f.auto_claim_comments()
             fin = ownership_keyed(f, what + ' final')
             check(all(o is not None for o in fin), what, 'auto_claim_comments left a comment unowned after manual calls', fin)
 
-    return 'layout_%s_n%d_k%d_a%d%s' % (first, n_lines, k_calls, len(alphabet), '_twin' if twin else ''), cell
+    return 'layout_%s_n%d_k%d_a%d%s%s' % (first, n_lines, k_calls, len(alphabet), '' if call_kinds == (0, 6) else '_c%d%d' % call_kinds, '_twin' if twin else ''), cell
 
 
 CELLS = {}
@@ -305,8 +310,9 @@ def _reg(name_fn, tiers, timeout, family, bounds, twin=False, cost=None):
 Q, T = ('quick', 'thorough'), ('thorough',)
 for _first in ('D', 'T', 'C', 'B', 'G'):
     _reg(make_layout(_first, 4, 0), {'C14': Q}, 1200, 'layout', 'all layouts of 4 lines starting with %r over 11 line kinds (both final-newline variants): attribution rules, idempotence, parse-vs-later' % _first, cost=300)
-    _reg(make_layout(_first, 4, 1, alphabet='TPMCIBW', fixed_fn=True), {'C14': Q}, 1200, 'layout/calls',
-         'all layouts of 4 lines starting with %r over 7 line kinds x 1 claim/unclaim call (6 models x 7 call kinds)' % _first, cost=500)
+    for _ck in ((0, 1), (2, 3), (4, 6)):      # split by call kind: cells are the unit of parallelism
+        _reg(make_layout(_first, 4, 1, alphabet='TPMCIBW', fixed_fn=True, call_kinds=_ck), {'C14': Q}, 1200, 'layout/calls',
+             'all layouts of 4 lines starting with %r over 7 line kinds x 1 claim/unclaim call (6 models x call kinds %d..%d of 7); deep copies attribute like their originals' % (_first, _ck[0], _ck[1]), cost=500)
     _reg(make_layout(_first, 5, 0, alphabet='DTPMQCIBW'), {'C14': T}, 3300, 'layout', 'all layouts of 5 lines starting with %r over 9 line kinds' % _first)
     _reg(make_layout(_first, 6, 0, alphabet='TPMCIBW'), {'C14': T}, 3300, 'layout', 'all layouts of 6 lines starting with %r over 7 line kinds' % _first)
     _reg(make_layout(_first, 3, 2, alphabet='TPMCIBW', fixed_fn=True), {'C14': T}, 3300, 'layout/calls', 'all layouts of 3 lines starting with %r over 7 line kinds x 2 claim calls' % _first)
